@@ -418,6 +418,21 @@ pub fn run(ctx: &Ctx) -> i32 {
         col.fail(f);
     }
     col.layer("admission rule (iff half)", n, true, json!({}));
+    // statements over inputs with non-admitted lines, through every driver
+    {
+        let defs = format!("{}\n{}\n{}", JDEF, JDEF_U, RDEF);
+        let jl = jlines();
+        let jn = jnoise();
+        let jin: Vec<String> = vec![jn[0].to_string(), jl[0].to_string(), jn[1 % jn.len()].to_string(), jl[2].to_string(), jl[1].to_string(), jn[2 % jn.len()].to_string()];
+        let rl = rlines();
+        let rn = rnoise();
+        let rin: Vec<String> = vec![rl[0].to_string(), rn[1].to_string(), rl[1].to_string(), rn[3].to_string(), rl[2].to_string(), rn[2].to_string()];
+        let mut cases: Vec<(String, String, Vec<String>, bool)> = Vec::new();
+        for (i, (text, json_table)) in w.stmts.iter().enumerate() {
+            cases.push((defs.clone(), text.clone(), if *json_table { jin.clone() } else { rin.clone() }, i % 2 == 0));
+        }
+        crate::drivers::run_layer(&col, &cases, &|s| if s.contains("JOIN") { "join".to_string() } else if s.contains("GROUP BY") || s.contains("COUNT(") { "aggregate".to_string() } else { "select".to_string() });
+    }
     let (fs, n) = admission_generated();
     col.eval(n);
     for f in fs {
